@@ -315,4 +315,4 @@ def signature(case, obs, msgs):
 def obligations(ctx):
     """second tie: the update() core re-translated from the source of the tree under test (harness/pytrans.py)"""
     from .pytrans import obligations_scalar
-    yield from obligations_scalar(ctx, ["DDM", "EDDM"])
+    yield from obligations_scalar(ctx, ["DDM", "EDDM", "STEPD"])
